@@ -13,6 +13,13 @@ from fractions import Fraction
 
 import quantities as pq
 
+try:  # the named concentration units of chempy.units (UnitQuantity objects, as a user would write them)
+    from chempy.units import default_units as _u
+    _M, _mM = _u.molar, _u.millimolar
+except Exception:  # pragma: no cover
+    _M = pq.UnitQuantity("M", 1e3 * pq.mole / pq.m ** 3, u_symbol="M")
+    _mM = pq.UnitQuantity("mM", pq.mole / pq.m ** 3, u_symbol="mM")
+
 UNITS = {
     "mol/kg": pq.mol / pq.kg, "mmol/kg": pq.mmol / pq.kg, "umol/kg": pq.umol / pq.kg,
     "mol/g": pq.mol / pq.g, "mmol/g": pq.mmol / pq.g,
@@ -20,9 +27,9 @@ UNITS = {
     "K": pq.K, "mK": pq.mK,
     "kg/m3": pq.kg / pq.m ** 3, "g/cm3": pq.g / pq.cm ** 3, "g/dm3": pq.g / (pq.m / 10) ** 3,
     "bar": pq.bar, "Pa": pq.Pa, "kPa": pq.kPa, "atm": pq.atm,
-    "M": 1e3 * pq.mol / pq.m ** 3, "mM": pq.mol / pq.m ** 3, "mol/m3": pq.mol / pq.m ** 3,
-    "M/atm": 1e3 * pq.mol / pq.m ** 3 / pq.atm, "mol/m3/Pa": pq.mol / pq.m ** 3 / pq.Pa,
-    "M/bar": 1e3 * pq.mol / pq.m ** 3 / pq.bar, "mM/bar": pq.mol / pq.m ** 3 / pq.bar,
+    "M": _M, "mM": _mM, "mol/m3": pq.mol / pq.m ** 3,
+    "M/atm": _M / pq.atm, "mol/m3/Pa": pq.mol / pq.m ** 3 / pq.Pa,
+    "M/bar": _M / pq.bar, "mM/bar": _mM / pq.bar,
     "m2/s": pq.m ** 2 / pq.s, "cm2/s": pq.cm ** 2 / pq.s,
     "cP": pq.cP, "Pa*s": pq.Pa * pq.s,
     "V": pq.V, "mV": pq.mV, "m2/V/s": pq.m ** 2 / pq.V / pq.s,
@@ -93,12 +100,12 @@ def magnitude_in(x, unit_name):
     if not is_quantity(x):
         return float(x)
     if unit_name in (None, "none", "1"):
-        return float(x.simplified.rescale(pq.dimensionless).magnitude)
-    return float(x.rescale(UNITS[unit_name]).magnitude)
-
-
-class Observed(object):
-    pass
+        r = x.simplified
+    else:
+        r = (x / UNITS[unit_name]).simplified
+    if dict(r.dimensionality):
+        raise ValueError("incompatible dimension: %s is not a %s" % (x.dimensionality, unit_name))
+    return float(r.magnitude)
 
 
 def observe(fn, warn_words):
